@@ -192,13 +192,15 @@ pub fn lead_byte_char(k: usize) -> char {
 /// Contexts (what precedes) x followers (the next character) x suffixes, enumerated completely:
 /// every scanner state in which the next character is classified by a byte-level or char-level
 /// predicate, followed by every class of character.
-pub const CONTEXTS: [&str; 70] = [
+pub const CONTEXTS: [&str; 82] = [
     "", "a", "a ", "- ", "? ", "a:", "a: ", "[", "[a", "[a,", "[ ", "{", "{a", "{a:", "{a: ", "!t", "[!t", "{!t", "- !t", "!!str", "[!<x>",
     "&a", "[&a", "*a", "[*a", "- &a", "\"a", "'a", "[\"a\"", "#", "a #", "|", ">", "|2", "a: |", "%YAML 1.", "%YAML 1", "%TAG !e", "%TAG !e! t", "%F",
     "---", "...", "a\n", "- a\n ",
     // adjacency contexts: indicators directly after a scalar / key / quote, in flow and in block
     "[a:", "{a:", "{\"a\":", "[\"a\":", "[?", "{?", "[:", "{:", "a #", "a#", "'a'", "\"a\"", "- a:", "? a", "? a\n:", "a: b\n c", "a: b\n  ", "&a *",
     "!e!", "!", "!<", "!<a", "%TAG ! ", "%TAG !e! ", "|\n a\n", ">\n a\n\n",
+    // separation by TAB only
+    "a:\t", "-\t", "?\t", "[a,\t", "{a:\t", "a:\t\t", "- a:\t", "!t\t", "&a\t", "|\t", "%YAML\t", "---\t",
 ];
 pub const FOLLOW_ASCII: [char; 34] = [
     'a', 'Z', '0', '9', ' ', '\t', '\n', '\r', '\0', '-', '.', ':', '?', ',', '[', ']', '{', '}', '#', '&', '*', '!', '|', '>', '\'', '"', '%', '@', '`',
@@ -236,11 +238,14 @@ pub struct Gen<'a> {
     next_anchor: usize,
     pub made_cross_alias: bool,
     e_handle: bool,
+    /// anchors of collections currently being rendered (for self-referential aliases)
+    open_anchors: Vec<String>,
 }
 
-const WORDS: [&str; 24] = [
+const WORDS: [&str; 28] = [
     "a", "b", "key", "value", "foo", "bar", "x1", "0", "42", "-1", "3.14", "true", "null", "~",
     "yes", "0x1F", "1e3", ".inf", "hello world", "a b c", "http://x.y/z?q=1", "a:b", "-x", "é",
+    "_x", "_", "-", "a_b-c",
 ];
 /// Numbers at and around the limits of the integer and float types the code may parse them
 /// into, and malformed numeric forms (an exponent without digits, a lone sign, several dots).
@@ -266,6 +271,7 @@ impl<'a> Gen<'a> {
             next_anchor: 1,
             made_cross_alias: false,
             e_handle: false,
+            open_anchors: Vec::new(),
         }
     }
 
@@ -350,9 +356,9 @@ impl<'a> Gen<'a> {
     /// (a std HashMap grows at 3, 7, 14, 28, 56, 112, 224, 448 entries), followed by more documents
     /// that use the same kind of thing again.
     pub fn many_things(&mut self) -> String {
-        let n = *self.r.pick(&[7usize, 8, 14, 15, 28, 29, 56, 57, 100, 112, 113, 114, 224, 225, 300, 449]);
+        let n = *self.r.pick(&[7usize, 8, 14, 15, 16, 17, 28, 29, 31, 32, 33, 47, 48, 56, 57, 63, 64, 65, 100, 112, 113, 114, 127, 128, 224, 225, 255, 256, 300, 449]);
         let mut s = String::new();
-        let kind = self.r.below(6);
+        let kind = self.r.below(7);
         let flow = self.r.chance(1, 3);
         let explicit_end = self.r.chance(1, 2);
         match kind {
@@ -381,6 +387,16 @@ impl<'a> Gen<'a> {
                     }
                     s.push_str(&format!("---\n- &m{d} a\n- *m{d}\n- &k{d} [b]\n- *k{d}\n"));
                 }
+            }
+            6 => {
+                // n-1 anchors, then a collection that aliases ITSELF (the anchor is still open),
+                // in the same document or in the next one
+                let new_doc = self.r.chance(1, 2);
+                for k in 0..n.saturating_sub(1) {
+                    s.push_str(&if new_doc { format!("--- &n{k} x\n") } else { format!("- &n{k} x\n") });
+                }
+                s.push_str(if new_doc { "--- " } else { "- " });
+                s.push_str(*self.r.pick(&["&self [*self]\n", "&self {k: *self}\n", "&self [a, [b, *self]]\n", "&self\n  - *self\n", "&self {*self : v}\n"]));
             }
             2 => {
                 // the same name re-registered n times
@@ -727,7 +743,8 @@ impl<'a> Gen<'a> {
         (*self.r.pick(&WORDS)).to_string()
     }
 
-    fn props(&mut self, out: &mut String) {
+    fn props(&mut self, out: &mut String) -> Option<String> {
+        let mut anchored = None;
         if self.r.chance(1, 8) {
             let name = if !self.anchors_cur.is_empty() && self.r.chance(1, 5) {
                 // re-register an existing name (anchors can be overridden)
@@ -741,6 +758,7 @@ impl<'a> Gen<'a> {
             out.push('&');
             out.push_str(&name);
             out.push(' ');
+            anchored = Some(name.clone());
             self.anchors_cur.push(name);
         }
         if self.e_handle && self.r.chance(1, 4) {
@@ -752,9 +770,15 @@ impl<'a> Gen<'a> {
                 "!a%21b ", "!%C3%A9 ", "!e!%E2%82%AC ", "!<tag:%F0%9F%98%80> ", "!%C3 ", "!%E2%82 ", "!%zz ", "!%4 ", "!x%FF ", "!%C3%28 ",
             ]));
         }
+        anchored
     }
 
     fn alias(&mut self) -> Option<String> {
+        if !self.open_anchors.is_empty() && self.r.chance(1, 4) {
+            // an alias to a collection that is still open (self-reference)
+            let i = self.r.usize(self.open_anchors.len());
+            return Some(format!("*{}", self.open_anchors[i]));
+        }
         let cross = self.r.below(1000) < u64::from(self.sw.cross_alias);
         if cross && !self.anchors_prev.is_empty() {
             self.made_cross_alias = true;
@@ -953,7 +977,10 @@ impl<'a> Gen<'a> {
         self.nodes_left -= 1;
         match self.r.below(10) {
             0 | 1 => {
-                self.props(out);
+                let open = self.props(out);
+                if let Some(a) = &open {
+                    self.open_anchors.push(a.clone());
+                }
                 out.push('[');
                 let n = self.r.usize(4);
                 for i in 0..n {
@@ -978,9 +1005,15 @@ impl<'a> Gen<'a> {
                     out.push(',');
                 }
                 out.push(']');
+                if open.is_some() {
+                    self.open_anchors.pop();
+                }
             }
             2 | 3 => {
-                self.props(out);
+                let open = self.props(out);
+                if let Some(a) = &open {
+                    self.open_anchors.push(a.clone());
+                }
                 out.push('{');
                 let n = self.r.usize(4);
                 for i in 0..n {
@@ -998,6 +1031,9 @@ impl<'a> Gen<'a> {
                     }
                 }
                 out.push('}');
+                if open.is_some() {
+                    self.open_anchors.pop();
+                }
             }
             4 => {
                 if let Some(a) = self.alias() {
@@ -1007,7 +1043,7 @@ impl<'a> Gen<'a> {
                 }
             }
             _ => {
-                self.props(out);
+                let _ = self.props(out);
                 let s = self.inline_scalar(true, false);
                 out.push_str(&s);
             }
@@ -1028,7 +1064,10 @@ impl<'a> Gen<'a> {
         match self.r.below(12) {
             0..=2 => {
                 // block sequence
-                self.props(out);
+                let open = self.props(out);
+                if let Some(a) = &open {
+                    self.open_anchors.push(a.clone());
+                }
                 let ind = if after_key {
                     out.push('\n');
                     if self.r.chance(1, 3) { indent } else { indent + step }
@@ -1056,13 +1095,16 @@ impl<'a> Gen<'a> {
                     }
                     self.block_node(ind + 2, depth + 1, out, false);
                 }
+                if open.is_some() {
+                    self.open_anchors.pop();
+                }
             }
             3..=5 => {
                 // block mapping
                 let has_props = self.r.chance(1, 8);
                 if has_props || after_key {
                     if has_props {
-                        self.props(out);
+                        let _ = self.props(out);
                     }
                     out.push('\n');
                 }
@@ -1102,7 +1144,7 @@ impl<'a> Gen<'a> {
                 }
             }
             6 => {
-                self.props(out);
+                let _ = self.props(out);
                 self.block_scalar(indent.saturating_sub(if after_key { 0 } else { 2 }), out);
             }
             7 => {
@@ -1121,7 +1163,7 @@ impl<'a> Gen<'a> {
                 out.push('\n');
             }
             _ => {
-                self.props(out);
+                let _ = self.props(out);
                 let s = self.inline_scalar(false, false);
                 out.push_str(&s);
                 if self.r.chance(1, 6) {
